@@ -16,7 +16,7 @@ SUBRANGE   every safe pub fn returning a borrowed slice/str returns a sub-range 
 """
 import re
 
-from .. import macrolint, facts, prov, sym, table, unsafeops, views
+from .. import macrolint, facts, mir, prov, sym, table, unsafeops, views
 from ..sym import show
 
 K = "konst::"
@@ -125,10 +125,40 @@ def run(ctx):
 def inventory(ctx, prog):
     by_key = {t[0]: t for t in TABLE}
     n_ops = 0
+    # A helper extracted later (a workspace function the reference vocabulary does not know) is transparent: its unsafe operations
+    # count as operations of the known functions that call it, and are judged against *their* obligation entries.
+    helpers = {}
     for b in prog.bodies:
+        if b.promoted is None and b.crate in sym.WORKSPACE and sym.KNOWN_FNS and b.key not in sym.KNOWN_FNS and b.key not in by_key:
+            helpers[b.key] = b
+    called_helpers = set()
+
+    def flat_ops(b, depth=0):
+        out = []
+        for o in unsafeops.ops_of(b):
+            h = helpers.get(o["detail"]) if o["kind"] == "call" else None
+            if h is not None and depth < 4:
+                called_helpers.add(h.key)
+                out.extend(flat_ops(h, depth + 1))
+            else:
+                out.append(o)
+        if depth == 0:
+            # safe calls into helpers that contain unsafe operations
+            for _, t in b.calls():
+                c = t.get("callee")
+                if c and not c.get("unsafe"):
+                    k = sym.core_path(mir.strip_generics(c["path"]))
+                    if k in helpers and k not in called_helpers:
+                        called_helpers.add(k)
+                        out.extend(flat_ops(helpers[k], 1))
+        return out
+    order = [b for b in prog.bodies if b.key not in helpers] + [b for b in prog.bodies if b.key in helpers]
+    for b in order:
         if b.promoted is not None or b.crate == "konst_proc_macros":
             continue
-        ops = unsafeops.ops_of(b)
+        if b.key in helpers and b.key in called_helpers:
+            continue                      # judged at its callers
+        ops = flat_ops(b)
         if not ops:
             continue
         ent = by_key.get(b.key)
